@@ -96,7 +96,9 @@ pub fn install_panic_hook() {
             .map(|l| {
                 let f = l.file();
                 // keep paths stable: strip everything before `src/` for /repo, keep crate dir for deps
-                let short = if let Some(i) = f.find("/repo/") {
+                let short = if let Some(i) = f.find("/repo-link/") {
+                    &f[i + 11..]
+                } else if let Some(i) = f.find("/repo/") {
                     &f[i + 6..]
                 } else if let Some(i) = f.find("registry/src/") {
                     let rest = &f[i + 13..];
